@@ -358,6 +358,12 @@ func (h *Hub) prepareConnectionInitation(ski string, counter int, entry *api.Mdn
 func (h *Hub) initateConnection(remoteService *api.ServiceDetails, entry *api.MdnsEntry) bool {
 	var err error
 
+	// no new connections once the hub is shut down
+	// closing the connections on shutdown would otherwise trigger reconnecting
+	if h.checkIsShutdown() {
+		return true
+	}
+
 	// connection attempt is not relevant if the device is no longer paired
 	// or it is not queued for pairing
 	pairingState := h.ServiceForSKI(remoteService.SKI()).ConnectionStateDetail().State()
